@@ -258,6 +258,17 @@ Finisher(u) ==
      sa \in {<<1>>, <<2>>}, oa \in {0, 1}, k \in 1..3, sg \in {<<1>>, <<2>>}, sb \in {<<1>>, <<3>>},
      c2 \in {<<>>, <<Buf("linear")>>}, rd \in {"sink", "none", "short"}, rev \in BOOLEAN}
 
+(* static links inside a composition: a static generator (no time, one publication) feeds    *)
+(* static inputs (sins) of the producer and / or the consumer of a pair and of a ring member; *)
+(* static inputs are no dependencies (C01) and serve their cached value (C20)                  *)
+StaticC == [kind |-> "static", steps |-> <<1>>, off |-> 0, ip |-> FALSE, ins |-> <<>>, u |-> "m", ws |-> FALSE]
+StaticIn(u) ==
+  {MkCfg(<<StaticC, TimeC(sa, o[1], FALSE, IF ring THEN <<Lk(3, <<Fix(4)>>)>> ELSE <<>>) @@ [sins |-> IF onp THEN <<1>> ELSE <<>>],
+           TimeC(sb, o[2], ip, <<Lk(2, ch)>>) @@ [sins |-> IF twice THEN <<1, 1>> ELSE <<1>>]>>,
+         ord, 5, IF ring THEN RingZone(4, MaxStep(sa) + MaxStep(sb), TRUE) ELSE "dag", "staticin") :
+     sa \in Steps1, sb \in {<<1>>, <<2>>}, o \in {<<0, 0>>, <<0, 1>>, <<1, 0>>}, ip \in BOOLEAN, ch \in ChainsUpTo1(AtomsS),
+     onp \in BOOLEAN, twice \in BOOLEAN, ring \in BOOLEAN, ord \in Perms3}
+
 (* finam's TimeTrigger between a pull-based generator and a consumer (the library's remedy    *)
 (* for "pull-only source followed by an element that needs pushes"): metadata flows through   *)
 (* its transfer rules, data through its initial pull and its updates                          *)
@@ -334,12 +345,13 @@ CfgSpace(f) ==
     [] f = "sinkfan"    -> SinkFan(0)
     [] f = "finisher"   -> Finisher(0)
     [] f = "trigger"    -> Trigger(0)
+    [] f = "staticin"   -> StaticIn(0)
     [] f = "lateidle"   -> LateIdle(0)
     [] f = "ringfanin"  -> RingFanIn(0)
     [] f = "ring2tail"  -> Ring2Tail(0)
 
 AllFamilies == {"pair", "pairL", "pairXL", "pair3", "chain3t", "chain3p", "fanin2", "fanin1",
                 "fanout", "pullfanout", "diamondt", "diamondp", "pullchain2", "ring2", "ring3",
-                "ring4", "pullring", "pullringtail", "ringbreak", "wsum", "pulltwice", "ring2tail", "fanoutshared", "repeatinteg", "sinkfan", "lateidle", "ringfanin", "fanout3shared", "chain3d", "wsumback", "finisher", "trigger"}
+                "ring4", "pullring", "pullringtail", "ringbreak", "wsum", "pulltwice", "ring2tail", "fanoutshared", "repeatinteg", "sinkfan", "lateidle", "ringfanin", "fanout3shared", "chain3d", "wsumback", "finisher", "trigger", "staticin"}
 
 =============================================================================
